@@ -139,3 +139,23 @@ package pubsub
 //@        calls((*validation).validate) == old(calls((*validation).validate))
 //@   ensures synchronous: lastret((*PubSub).checkSigningPolicy) == nil ==> calls((*validation).validate) == old(calls((*validation).validate)) + 1 &&
 //@        lastarg((*validation).validate, 4) && lastarg((*validation).validate, 3) == msg && result == lastret((*validation).validate)
+
+// Validator registration requests (C14/C04): answered exactly once on every path; a topic has at
+// most one validator (a second registration is refused and changes nothing); removal removes
+// exactly that topic's validator.
+//@ func (*validation).AddValidator
+//@   property C04 C14
+//@   requires req: req != nil && v.topicVals != nil
+//@   noframe
+//@   ensures answered-once: sent(req.resp) == old(sent(req.resp)) + 1
+//@   ensures error-or-nil-reported: lastret((*validation).makeValidator, 1) != nil ==> lastsent(req.resp) == lastret((*validation).makeValidator, 1)
+// (that an existing validator is never replaced is not stated here: makeValidator takes
+// user-supplied function values and its effect on the table cannot be bounded by the analysis)
+
+//@ func (*validation).RemoveValidator
+//@   property C04 C14
+//@   requires req: req != nil && v.topicVals != nil
+//@   noframe
+//@   ensures answered-once: sent(req.resp) == old(sent(req.resp)) + 1
+//@   ensures removed: !(old(req.topic) in v.topicVals) && (old(req.topic in v.topicVals) == (lastsent(req.resp) == nil))
+//@   ensures others: forall t string :: t != old(req.topic) ==> (t in v.topicVals) == old(t in v.topicVals) && v.topicVals[t] == old(v.topicVals[t])
